@@ -22,7 +22,7 @@ def _upd(kind, v):
     STAT[kind] = max(STAT.get(kind, 0.0), float(v))
 
 
-TOL = {'layouts': 1e-13, 'round_trip': 1e-9, 'fd_jacobian': 1e-6, 'inverse_jacobian': 1e-10, 'det': 1e-10, 'facet_map': 1e-9,
+TOL = {'facet_basis_normal': 1e-6, 'layouts': 1e-13, 'round_trip': 1e-9, 'fd_jacobian': 1e-6, 'inverse_jacobian': 1e-10, 'det': 1e-10, 'facet_map': 1e-9,
        'surface_factor': 1e-6, 'normal_unit': 1e-12, 'normal_orthogonal': 1e-6, 'divergence': 1e-10, 'affine_iso': 1e-11}
 
 
@@ -68,7 +68,8 @@ def meshes(ctx, rng):
     out.append(('MeshTri2', _curve(fe.MeshTri2.init_circle() if hasattr(fe.MeshTri2, 'init_circle') else fe.MeshTri2(), rng, 0.15)))
     out.append(('MeshQuad2', _curve(fe.MeshQuad2().refined(1) if hasattr(fe.MeshQuad2(), 'refined') else fe.MeshQuad2(), rng, 0.2)))
     out.append(('MeshTet2', _curve(fe.MeshTet2(), rng, 0.15)))
-    out.append(('MeshHex2', _curve(fe.MeshHex2(), rng, 0.15)))
+    out.append(('MeshHex2', _curve(fe.MeshHex2.from_mesh(fe.MeshHex.init_tensor(np.array([0., .5, 1.]), np.array([0., 1.]), np.array([0., 1.]))),
+                                   rng, 0.15)))
     if hasattr(fe, 'MeshWedge1'):
         out.append(('MeshWedge1', fe.MeshWedge1()))
     if not ctx.quick():
@@ -271,6 +272,65 @@ def divergence(ctx, name, m, rng):
            {'mesh': name, 'doflocs': m.doflocs.tolist(), 't': m.t.tolist(), 'boundary_integral_x_dot_n': float(flux), 'd_times_volume': float(dim * vol)})
 
 
+def facet_basis_normals(ctx, name, m, rng):
+    """FacetBasis / InteriorFacetBasis normals on interior facets, for both traces (side 0 / 1) and for an OrientedBoundary
+    with random orientation flags, against an INDEPENDENT normal: the normalised rotated tangent (2-D) / cross product of the
+    two tangents (3-D) of the facet map, obtained by finite differences of mapping.G at the quadrature points, signed so that
+    it points out of the cell the library documents the normal to be taken from (f2t[0, f], resp. f2t[ori, f]).  This covers
+    unit length, orthogonality to the facet, outwardness, and 'both traces see the same normal' at the same physical point."""
+    import skfem as fe
+    from skfem.generic_utils import OrientedBoundary
+    dim = m.dim()
+    if dim == 1 or m.elem.refdom.brefdom is None:
+        return
+    intf = np.nonzero(m.f2t[1] >= 0)[0].astype(np.int32)
+    if len(intf) == 0:
+        return
+    elem = m.elem()
+    mp = m.mapping()
+    ori = rng.integers(0, 2, size=len(intf))
+    if ori.all() or not ori.any():
+        ori[0] = 1 - ori[0]
+    for variant, side, oriented in (('side0', 0, False), ('side1', 1, False), ('oriented-side0', 0, True), ('oriented-side1', 1, True)):
+        if oriented:
+            fb = fe.FacetBasis(m, elem, facets=OrientedBoundary(intf, ori), side=side, intorder=3)
+            ncell = m.f2t[ori, intf]
+        else:
+            fb = fe.InteriorFacetBasis(m, elem, side=side, intorder=3) if side == 0 or variant == 'side1' else None
+            ncell = m.f2t[0, intf]
+            if not np.array_equal(np.asarray(fb.find), intf):
+                fb = fe.FacetBasis(m, elem, facets=intf, side=side, intorder=3)
+        n = np.asarray(fb.normals)
+        x = np.asarray(fb.global_coordinates())
+        X = fb.X
+        h = 1e-6
+        tang = []
+        for j in range(dim - 1):
+            E = np.zeros_like(X)
+            E[j] = h
+            tang.append((mp.G(X + E, find=intf) - mp.G(X - E, find=intf)) / (2 * h))
+        if dim == 2:
+            nu = np.array([tang[0][1], -tang[0][0]])
+        else:
+            nu = np.cross(tang[0], tang[1], axis=0)
+        nu = nu / np.sqrt((nu ** 2).sum(0))
+        cen = m.p[:, m.t[:, ncell]].mean(1)                    # vertex centroid of the cell the normal belongs to
+        sgn = np.sign((nu * (x - cen[:, :, None])).sum(0))
+        nu = nu * sgn
+        ctx.count(('facet-basis-normals', name, variant, m.doflocs.tolist()), nontrivial=True)
+        ctx.hist('facet_basis_normals', f'{name}:{variant}')
+        if n.shape != nu.shape:
+            ctx.fail(f'facet-basis-normals:{name}:{variant}', f'normals have shape {n.shape}, expected {nu.shape}', {'mesh': name})
+            continue
+        err = np.abs(n - nu).max(0)                              # per facet and point
+        k, l = np.unravel_index(np.argmax(err), err.shape)
+        _check(ctx, 'facet_basis_normal', f'facet-basis-normals:{name}:{variant}', err.max(),
+               {'mesh': name, 'variant': variant, 'side': side, 'doflocs': m.doflocs.tolist(), 't': m.t.tolist(), 'facet': int(intf[k]),
+                'orientation_flags': ori.tolist() if oriented else None, 'cells_of_facet': m.f2t[:, intf[k]].tolist(),
+                'normal_taken_from_cell': int(ncell[k]), 'point': x[:, k, l].tolist(),
+                'normal_of_FacetBasis': n[:, k, l].tolist(), 'independent_normal_from_facet_tangents': nu[:, k, l].tolist()})
+
+
 def affine_vs_iso(ctx, name, m, rng):
     from skfem.mapping import MappingAffine, MappingIsoparametric
     dim = m.dim()
@@ -340,6 +400,7 @@ def run(ctx, rng):
                     mi = MappingIsoparametric(m, m.elem(), m.bndelem)
                     check_mapping(ctx, name, m, mi, rng, 'iso')
                 divergence(ctx, name, m, rng)
+                facet_basis_normals(ctx, name, m, rng)
             except Exception as e:  # noqa: BLE001 - an exception of the code under test on a valid mesh is a failing input
                 import traceback
                 ctx.fail(f'exception:{name}', f'{type(e).__name__} while evaluating the mapping of {name}: {e}',
